@@ -92,6 +92,55 @@ Definition chk_shape1 (p : prog) (o : iobs) : N :=
 Definition chk_guard1 (p : prog) : bool :=
   body_guard (p_num p) (arg_env (p_args p)) (p_ret p) (p_body p).
 
+(* does the program contain an if-expression whose branches have DIFFERENT translated types
+   (the code widens the narrower branch; harness/shadow.py keeps CPython's dynamic width)? *)
+Fixpoint mixed_if (num : sname -> nat) (G : env) (e : pexp) : bool :=
+  match e with
+  | EIf c t f =>
+      mixed_if num G c || mixed_if num G t || mixed_if num G f ||
+      match trans_exp num G t, trans_exp num G f with
+      | Some rt, Some rf => negb (ty_eq (fst rt) (fst rf))
+      | _, _ => false
+      end
+  | EBoolOp _ l | ETuple l => existsb (mixed_if num G) l
+  | EUn _ a | EInt a | EFloat a => mixed_if num G a
+  | ECmp _ a b | EBin _ a b => mixed_if num G a || mixed_if num G b
+  | _ => false
+  end.
+Fixpoint mixed_if_body (num : sname -> nat) (G : env) (rt : ty) (body : list pstmt) : bool :=
+  match body with
+  | [] => false
+  | s :: r =>
+      match s with SAssign _ e | SReturn e | SExpr e => mixed_if num G e | SRaise => false end
+      || match trans_stmt num G rt s with
+         | Some dg => mixed_if_body num (snd dg) rt r
+         | None => false
+         end
+  end.
+(* does the program bind a bare integer literal to a name (`t = 3`, `t = 5 if p else t`)?  The code
+   types the literal at the narrowest constant width and the name keeps that width; in the shadow
+   run the name holds an untyped Python int until it meets a typed value *)
+Fixpoint top_const (e : pexp) : bool :=
+  match e with
+  | EConst (CInt _) => true
+  | EIf _ t f => top_const t || top_const f
+  | _ => false
+  end.
+Definition binds_literal (body : list pstmt) : bool :=
+  existsb (fun s => match s with SAssign _ e => top_const e | _ => false end) body.
+
+(* 1 = mixed-width if-expression, 2 = a name bound to an integer literal, 3 = both: id * 10 + code *)
+Definition chk_mixed (l : list (N * (prog * iobs))) : list N :=
+  flat_map (fun c => let p := fst (snd c) in
+                     let a := mixed_if_body (p_num p) (arg_env (p_args p)) (p_ret p) (p_body p) in
+                     let b := binds_literal (p_body p) in
+                     match a, b with
+                     | false, false => []
+                     | true, false => [(fst c * 10 + 1)%N]
+                     | false, true => [(fst c * 10 + 2)%N]
+                     | true, true => [(fst c * 10 + 3)%N]
+                     end) l.
+
 (* ---- the reference evaluator against the shadow execution ---- *)
 Fixpoint bools_eqb (a b : list bool) : bool :=
   match a, b with
